@@ -5,6 +5,8 @@ R12.2 the cursor fields of GroFile move together (seek_atom / readline)
 R12.3 offset arithmetic and run-length encoding/decoding agree
 R12.4 the residue-boundary predicate is injective in (residue number, residue name)
 R12.5 integer (incl. -1), negative and slice indexing go through the same offset generator
+R12.2b raw-reader discipline: whoever reads records from the underlying file advances the counter or re-seeks afterwards, itself or in all callers
+R12.7 the view keeps no table between calls
 """
 from __future__ import annotations
 
